@@ -1,5 +1,5 @@
 (** Proofs about [Rch/Ports.v] (property C05). *)
-From Remoc Require Import Lib.Base Rch.Ports.
+From Remoc Require Import Lib.Base Gen.Halves Rch.Ports.
 
 (** * Lists without repetition *)
 
@@ -779,7 +779,7 @@ Proof. revert i. induction l as [|z l IH]; intros [|i]; cbn [update length]; aut
 
 Definition far_ok (h : nat) (dead : list nat) (d : bool) (f : fstat) : Prop :=
   match f with
-  | FNone => True
+  | FNone => d = true -> dead <> []
   | FConn => d = true /\ dead <> []
   | FErr => d = true /\ In h dead
   end.
@@ -806,7 +806,12 @@ Proof.
 Qed.
 
 Lemma far_ok_mono h dead k d f : far_ok h dead d f -> far_ok h (k :: dead) d f.
-Proof. destruct f; cbn; auto. - intros [? ?]. split; [auto|discriminate]. - intros [? ?]. split; [auto|now right]. Qed.
+Proof.
+  destruct f; cbn.
+  - intros _ _. discriminate.
+  - intros [? ?]. split; [auto|discriminate].
+  - intros [? ?]. split; [auto|now right].
+Qed.
 
 Lemma rinv_mono h dead k d r : rinv h dead d r -> rinv h (k :: dead) d r.
 Proof.
@@ -833,9 +838,9 @@ Proof.
     pose proof (is_dead_in _ _ ED) as Hin.
     assert (Hne : s_dead s <> []) by (intros E; rewrite E in Hin; destruct Hin).
     unfold rinv in Hr. destruct (r_phase r) eqn:EPh; cbn [phase_conn] in EP; try discriminate; injection EP as <-.
-    + destruct Hr as [Hk Hf]. apply fail_up_inv; [exact Hk|]. rewrite Hf. exact I.
+    + destruct Hr as [Hk Hf]. apply fail_up_inv; [exact Hk|]. rewrite Hf. cbn. auto.
     + apply fail_up_inv; [lia|].
-      destruct (nth i (s_decide s) false) eqn:EDc; [cbn; auto|]. rewrite Hr. exact I.
+      destruct (nth i (s_decide s) false) eqn:EDc; [cbn; auto|]. rewrite Hr. cbn. discriminate.
     + destruct Hr as [Hk [Hf Hd]]. apply fail_up_inv; [exact Hk|]. rewrite Hf. cbn. auto.
     + destruct Hr as [Hk Hf]. apply fail_up_inv; assumption.
   - destruct (is_dead s k) eqn:ED; [discriminate|].
@@ -845,7 +850,7 @@ Proof.
       * exact Hf.
     + destruct (nth i (s_decide s) false) eqn:EDc; intros [= <-]; unfold rinv; cbn [r_phase r_far].
       * split; [lia|auto].
-      * split; [lia|]. rewrite Hr. exact I.
+      * split; [lia|]. rewrite Hr. cbn. discriminate.
     + destruct Hr as [Hk [Hf Hd]]. destruct k0 as [|[|k']]; intros [= <-]; unfold rinv; cbn [r_phase r_far]; auto.
       split; [lia|auto].
     + destruct Hr as [Hk Hf]. destruct k0 as [|[|k']]; intros [= <-]; unfold rinv; cbn [r_phase r_far]; auto.
@@ -1223,3 +1228,81 @@ Proof.
     destruct (il_step_one_side lr s0 st a Ha H1 H2 H3) as [K1 [K2 K3]]. now apply IH. }
   intros HF. apply G; [exact HF|reflexivity|now destruct s0|now destruct s0].
 Qed.
+
+(** At quiescence -- no request can make a step any more -- every request is resolved, and:
+    a request the far end matched by id and accepted is connected at both ends, unless a connection
+    was lost, in which case the origin's connect future failed (and the far end's port, if it got one,
+    sits on a broken path); a request the far end dropped failed at the origin and left nothing at the
+    far end.  No end stays pending. *)
+Theorem resolved_at_quiescence h decide acts :
+  (1 <= h)%nat ->
+  let s := run acts (init_sys h decide) in
+  quiescent s ->
+  forall i r, nth_error (s_reqs s) i = Some r ->
+    if nth i decide false
+    then (r_phase r = DoneOk /\ r_far r = FConn) \/ (r_phase r = DoneErr /\ s_dead s <> [])
+    else r_phase r = DoneErr /\ r_far r = FNone.
+Proof.
+  intros Hh s Hq i r E.
+  assert (Hinv : inv s) by (apply run_inv, init_inv; exact Hh).
+  pose proof (quiescent_all_resolved _ Hinv Hq _ _ E) as Hd.
+  destruct (run_static acts (init_sys h decide)) as [Hd1 Hd2]. fold s in Hd1, Hd2.
+  cbn [init_sys s_decide s_h] in Hd1, Hd2.
+  destruct Hinv as [_ Hi]. specialize (Hi _ _ E). rewrite Hd1, Hd2 in Hi.
+  unfold rinv, far_ok in Hi. unfold is_done in Hd.
+  destruct (nth i decide false) eqn:ED; destruct (r_phase r) eqn:EP; try discriminate.
+  - left. tauto.
+  - right. split; [reflexivity|]. destruct (r_far r); [auto|tauto|].
+    destruct Hi as [_ Hin]. intros E0. rewrite E0 in Hin. destruct Hin.
+  - destruct Hi; discriminate.
+  - split; [reflexivity|]. destruct (r_far r); [reflexivity| |]; destruct Hi; discriminate.
+Qed.
+
+(** * Port exhaustion *)
+
+Fixpoint travelling (ls : list leaf) : nat :=
+  match ls with
+  | [] => O
+  | l :: ls' => match l_mode l with MFake _ => travelling ls' | _ => S (travelling ls') end
+  end.
+
+(** Serialization fails ("ports exhausted") exactly when the value carries more halves than the
+    origin's allocator has ports left; then nothing is sent (the item comes back in the error). *)
+Theorem serialize_exhausted ls : forall ps, serialize ls ps = None <-> (length ps < travelling ls)%nat.
+Proof.
+  induction ls as [|l ls IH]; intros ps; cbn [serialize travelling].
+  - split; [discriminate|lia].
+  - destruct (l_mode l).
+    + destruct ps as [|p ps']; cbn [length]; [split; [lia|reflexivity]|].
+      specialize (IH ps'). destruct (serialize ls ps') as [[t pl]|].
+      * split; [discriminate|]. intros H. exfalso. assert (H1 : (length ps' < travelling ls)%nat) by lia.
+        apply IH in H1. discriminate.
+      * split; [|reflexivity]. intros _. assert (H1 : (length ps' < travelling ls)%nat) by now apply IH. lia.
+    + destruct ps as [|p ps']; cbn [length]; [split; [lia|reflexivity]|].
+      specialize (IH ps'). destruct (serialize ls ps') as [[t pl]|].
+      * split; [discriminate|]. intros H. exfalso. assert (H1 : (length ps' < travelling ls)%nat) by lia.
+        apply IH in H1. discriminate.
+      * split; [|reflexivity]. intros _. assert (H1 : (length ps' < travelling ls)%nat) by now apply IH. lia.
+    + specialize (IH ps). destruct (serialize ls ps) as [[t pl]|].
+      * split; [discriminate|]. intros H. apply IH in H. discriminate.
+      * split; [|reflexivity]. intros _. now apply IH.
+Qed.
+
+(** Deserialization fails exactly when the far end's allocator has fewer ports left than the value
+    carries halves it knows; then the item is lost as a whole and none of its requests is accepted. *)
+Theorem deser_exhausted pl : forall m qs, deser m pl qs = None <-> (length qs < length (entries pl))%nat.
+Proof.
+  induction pl as [|[[id cb]|] pl IH]; intros m qs; cbn [deser entries length].
+  - split; [discriminate|lia].
+  - destruct qs as [|q qs']; cbn [length]; [split; [lia|reflexivity]|].
+    rewrite IH. lia.
+  - apply IH.
+Qed.
+
+(** * Facts read off the source (regenerated on every run) *)
+Lemma source_shape :
+  ser_id_is_port = true /\ ser_callbacks_in_order = true /\ forward_keeps_id = true /\
+  forward_relays_answer = true /\ deser_keyed_by_remote_port = true /\ match_by_id = true /\
+  missing_ports_reported = true /\ interlock_sites_understood = true /\
+  bin_tx_marks_own = bin_rx_marks_own /\ lr_tx_marks_own = lr_rx_marks_own.
+Proof. repeat split; reflexivity. Qed.
